@@ -8,8 +8,8 @@ from harness import c13_names as NM
 
 META = {
     "id": "C13",
-    "technique": "Coq proof (registry: reflection over translator-generated tables; INI: induction over text of a model of write_project's renderer and of configparser's reader) + extracted-model correspondence with pio.py and with CPython configparser + configparser read-back oracle",
-    "level_text": "Theorems C13_* (coq/Props/C13.v) are proved for all strings about a Gallina model of validate_platform_board/write_project (tables and the PIO_INI template regenerated from pio.py on every run) and of configparser.ConfigParser(interpolation=None); the round trip is proved inside an explicit guard (no line break, no blank padding, library names not starting with # or ;) and refuted outside it by the three listed findings; the model is run against the real functions on (registry+near-miss)^2, generated project configurations, and - model-vs-implementation only - hostile configurations and INI texts outside the guard.",
+    "technique": "Coq proof (registry: reflection over translator-generated tables; INI: induction over text of a model of write_project's renderer and of configparser's reader) + near-miss names: for any normaliser separating the registered ids, lookup through a keyed index is exact iff no id has a twin, and the code refuses every twin; source inventory of pio.py regenerated per run) + extracted-model correspondence with pio.py and with CPython configparser + property oracles (verdict = registered for exactly that platform over near-miss families; configparser read-back; byte snapshot of project, current directory, HOME and siblings)",
+    "level_text": "Theorems C13_* (coq/Props/C13.v) are proved for all strings about a Gallina model of validate_platform_board/write_project (tables and the PIO_INI template regenerated from pio.py on every run) and of configparser.ConfigParser(interpolation=None); the round trip is proved inside an explicit guard (no line break, no blank padding, library names not starting with # or ;) and refuted outside it by the three listed findings; near-miss names (twins of a registered id under _sanitize_env_name, case folding, strip, separator dropping) are proved refused, never written, and shown to be exactly what separates the code from validation through a keyed index (C13_keyed_validation_exact_iff_no_twin, C13_keyed_validation_refuted); C13_source_inventory ties the model's claim 'validation reads SUPPORTED_PLATFORMS and BOARD_TO_PLATFORM only, the module holds no other table' to the byte code and module dict of the current pio.py; the model is run against the real functions on (registry+near-miss)^2 with nine near-miss families per registered id, strings harvested from the module itself, generated project configurations, and - model-vs-implementation only - hostile configurations and INI texts outside the guard.",
     "level_note": "Trusted: Coq kernel, translator gen_tables.py, extraction (ExtrOcamlBasic), OCaml driver, CPython configparser(interpolation=None) as 'a standard INI parser'. The theorems are about the model; the correspondence check bounds its distance from pio.py.",
     "design_ref": "DESIGN.md section 4 C13, Appendix A.6",
 }
@@ -288,6 +288,14 @@ def run(ctx: C.Ctx):
     for i, (pl, b) in enumerate(pairs):
         port, libs = guard(PORT_POOL[i % len(PORT_POOL)], [LIB_POOL[(i + j) % len(LIB_POOL)] for j in range(i % 4)])
         wcases.append(["write", SRC_POOL[i % 19], port, pl, b, libs, False, 0])
+    # degenerate sources onto every kind of earlier state (nothing / foreign files / an earlier project with a longer,
+    # an equal-length and a shorter source): "always writes the given source", also when it is empty or blank
+    n_degenerate = 0
+    for src in ["", "\n", " ", "\x00", "\r\n", "x"]:
+        for pre in [False, True, ["prior", "int old_source = 1;\n", "COM3", ["Servo"]], ["prior", (src + "y")[:max(len(src), 1)], "COM3", None],
+                    ["prior", src, "COM3", None], ["prior", "", "COM3", None]]:
+            wcases.append(["write", src, "COM3", "atmelavr", "uno", None, pre, 0])
+            n_degenerate += 1
     # library lists exhaustively over a boundary alphabet: a name, another, the empty entry, a superstring of the
     # first, its case variant (every order, every repeat pattern up to the length bound)
     alpha = ["Servo", "Wire", "", "Servo2", "servo"]
@@ -356,7 +364,7 @@ def run(ctx: C.Ctx):
     ctx.coverage.update({
         "evaluations": n_validate + len(wcases) + len(wbad) + n_extra,
         "distinct_nontrivial": len(nontrivial) + len({repr(c) for c in wcases}) + len({(c[3], c[4]) for c in wbad}),
-        "rule": "validate: (1) (platforms+near-miss+sampled board names) x (all registered boards+simple near-miss names); (2) near-miss families of harness/c13_names.py - for EVERY registered id: separator runs replaced/inserted/dropped, case variants, blank/control/invisible padding, Unicode compatibility forms / case-folding specials / foreign digits / homoglyphs / combining marks, version-path-key-quote decorations, glob-regex-LIKE metacharacters, every proper prefix and suffix, single edits, digit-run changes - each against every real platform; the same families of every platform name against boards of both platforms and against board near-misses; near-miss x near-miss samples; (3) every string held by a module-level container of pio.py or occurring as a constant in its source, in both positions.  Distinct non-trivial = accepted, unknown-board or mismatched pairs (unknown-platform rejections counted trivial).  All three streams feed the property oracle AND the model correspondence (verdict and error kind); 'separating' counts, per normaliser of Tool/NearMiss.v, the cases on which the extracted keyed-index variant answers differently from the model of the code.  write_project: seeded configurations inside the guard (ports from a pool of pyserial URLs, Windows/Unix device paths, format/shell/INI metacharacters, numerals and booleans, 300-character names, then random printable ASCII and non-ASCII incl. astral; library lists from a pool incl. superstrings, case variants, URLs, format fields, long lists with far-apart repeats; sources incl. NUL, BOM, CR-only, astral, 70 kB), 30 % onto an earlier project (related source, longer/shorter configuration, another board), project directory spelled absolute / relative to the current directory / not normalised / under missing non-ASCII ancestors; every registered pair written once; library lists exhaustively over {name, other, '', superstring, case variant} up to the length bound; unregistered pairs (near-miss boards for their twin's platform, near-miss platforms, harvested strings) must raise ValueError and leave every byte of the watched tree (project, current directory, HOME, siblings) as it was.  Model-only streams (never the oracle): write_project with hostile ports/libraries outside the guard, the reader alone on structured random INI texts, _format_lib_section and _sanitize_env_name on generated inputs (not counted in distinct_nontrivial)",
+        "rule": "validate: (1) (platforms+near-miss+sampled board names) x (all registered boards+simple near-miss names); (2) near-miss families of harness/c13_names.py - for EVERY registered id: separator runs replaced/inserted/dropped, case variants, blank/control/invisible padding, Unicode compatibility forms / case-folding specials / foreign digits / homoglyphs / combining marks, version-path-key-quote decorations, glob-regex-LIKE metacharacters, every proper prefix and suffix, single edits, digit-run changes - each against every real platform; the same families of every platform name against boards of both platforms and against board near-misses; near-miss x near-miss samples; (3) every string held by a module-level container of pio.py or occurring as a constant in its source, in both positions.  Distinct non-trivial = accepted, unknown-board or mismatched pairs (unknown-platform rejections counted trivial).  All three streams feed the property oracle AND the model correspondence (verdict and error kind); 'separating' counts, per normaliser of Tool/NearMiss.v, the cases on which the extracted keyed-index variant answers differently from the model of the code.  write_project: seeded configurations inside the guard (ports from a pool of pyserial URLs, Windows/Unix device paths, format/shell/INI metacharacters, numerals and booleans, 300-character names, then random printable ASCII and non-ASCII incl. astral; library lists from a pool incl. superstrings, case variants, URLs, format fields, long lists with far-apart repeats; sources incl. NUL, BOM, CR-only, astral, 70 kB), 30 % onto an earlier project (related source, longer/shorter configuration, another board), project directory spelled absolute / relative to the current directory / not normalised / under missing non-ASCII ancestors; every registered pair written once; empty / blank / one-character sources onto six kinds of earlier directory state; library lists exhaustively over {name, other, '', superstring, case variant} up to the length bound; unregistered pairs (near-miss boards for their twin's platform, near-miss platforms, harvested strings) must raise ValueError and leave every byte of the watched tree (project, current directory, HOME, siblings) as it was.  Model-only streams (never the oracle): write_project with hostile ports/libraries outside the guard, the reader alone on structured random INI texts, _format_lib_section and _sanitize_env_name on generated inputs (not counted in distinct_nontrivial)",
         "samples": [vcases[len(vcases) // 2], ncases[len(ncases) // 3], ncases[len(ncases) // 2], ncases[-1], hcases[len(hcases) // 2]]
                    + [c for c in wcases[:n_w] if len(repr(c)) < 300 and isinstance(c[6], list)][:2]
                    + [c for c in wcases[:n_w] if len(repr(c)) < 300 and c[7] != 0][:1] + [wcases[n_w + 3], wcases[-7], wbad[5], wbad[-1]],
@@ -365,7 +373,7 @@ def run(ctx: C.Ctx):
                          "near_miss_board_names": len(board_nm), "near_miss_platform_names": len(plat_nm),
                          "harvested_strings": len(hnames), "harvested_not_registered": n_hv_unreg,
                          "write_cases": len(wcases), "write_random": n_w, "write_every_registered_pair": len(pairs),
-                         "write_exhaustive_lib_lists": n_exh, "write_invalid_pairs": len(wbad), "ini_model_cases": n_ini,
+                         "write_exhaustive_lib_lists": n_exh, "write_degenerate_sources_x_earlier_states": n_degenerate, "write_invalid_pairs": len(wbad), "ini_model_cases": n_ini,
                          "write_onto_earlier_project": sum(1 for c in wcases if isinstance(c[6], list)),
                          "write_dir_forms": {str(k): sum(1 for c in wcases if c[7] == k) for k in range(5)},
                          "ports_non_ascii": sum(1 for c in wcases if not c[2].isascii()),
